@@ -40,6 +40,11 @@ func synth(t reflect.Type, r *proto.Rand, full bool, neverNil map[string]map[str
 		f := t.Field(i)
 		fv := sv.Field(i)
 		switch {
+		case f.Anonymous && f.Type == positionType && t.Name() == "Tree":
+			// ast.NewTree takes no position: every tree has 1:1 (assumption ctorPosition)
+			fv.Set(reflect.ValueOf(&ast.Position{Line: 1, Column: 1, Start: 0, End: 0}))
+		case f.Anonymous && f.Type == positionType && t.Name() == "Placeholder":
+			// ast.NewPlaceholder takes no position: a placeholder has none
 		case f.Anonymous && f.Type == positionType:
 			fv.Set(reflect.ValueOf(&ast.Position{Line: 1 + synthCounter%50, Column: 1 + synthCounter%7, Start: synthCounter, End: synthCounter + 1}))
 		case f.Anonymous && f.Type.Kind() == reflect.Ptr: // *expression
